@@ -409,3 +409,153 @@ func runIndexGuardAdmitsLength(rr *RuleRun) {
 }
 
 func lhsCount(rhs []ast.Expr) []ast.Expr { return rhs }
+
+// ---------------------------------------------------------------------------
+// C15.elements-decoded-through-dispatcher
+
+func init() {
+	register(&Rule{
+		ID: "C15.elements-decoded-through-dispatcher", Prop: "C15", Also: []string{"C16", "C17"}, Floor: 12, Controls: 0,
+		Doc: "in both decoders every member of a collection or structure is decoded through the dispatcher: the kind-specific decoding functions (unmarshalPrimitive, unmarshalList, … — the functions the dispatcher 'unmarshal' calls from its kind switch) are called from nowhere else, so the handling the dispatcher does before the switch (a null, the dynamic wrapper, an unknown-value extension) applies at every depth — a member decoded by a kind-specific function directly (a fast path for primitive elements) rejects the null members the encoder writes",
+		Run: runElementsDecodedThroughDispatcher,
+	})
+}
+
+func runElementsDecodedThroughDispatcher(rr *RuleRun) {
+	c := rr.Ctx
+	for _, pkg := range []string{"cty/json", "cty/msgpack"} {
+		info := c.Info(pkg)
+		disp := rr.MustDecl(pkg, "unmarshal")
+		if disp == nil {
+			continue
+		}
+		dispObj := info.Defs[disp.Name]
+		// the kind-specific decoders: in-package callees of the dispatcher that take the decoder state
+		kindDecoders := map[*types.Func]bool{}
+		inspectNoLit(disp.Body, func(n ast.Node) bool {
+			if call, ok := n.(*ast.CallExpr); ok {
+				if f := callee(info, call); f != nil && f.Pkg() != nil && shortPkg(f.Pkg()) == pkg && types.Object(f) != dispObj && strings.HasPrefix(f.Name(), "unmarshal") {
+					kindDecoders[f] = true
+				}
+			}
+			return true
+		})
+		if len(kindDecoders) < 6 {
+			rr.Broken(fmt.Sprintf("stale anchor: the dispatcher %s.unmarshal calls %d kind-specific decoders, expected at least 6", pkg, len(kindDecoders)))
+			continue
+		}
+		for _, fd := range c.SortedDecls(pkg) {
+			if fd.Body == nil || fd == disp {
+				continue
+			}
+			ast.Inspect(fd.Body, func(n ast.Node) bool {
+				call, ok := n.(*ast.CallExpr)
+				if !ok {
+					return true
+				}
+				f := callee(info, call)
+				if f == nil || !kindDecoders[f] {
+					return true
+				}
+				rr.Violation(fmt.Sprintf("%s.%s/call %s", pkg, declName(fd), f.Name()), call.Pos(), fmt.Sprintf("%s calls the kind-specific decoder %s directly instead of going through the dispatcher: what the dispatcher does first (a null member, a dynamically-typed member, an unknown-value extension) is skipped for the members decoded here, so the decoder rejects documents the encoder writes", declName(fd), f.Name()))
+				return true
+			})
+		}
+		var names []string
+		for f := range kindDecoders {
+			names = append(names, f.Name())
+		}
+		sortStrings(names)
+		for _, nm := range names {
+			rr.OK(fmt.Sprintf("%s.%s/callers", pkg, nm), disp.Pos(), "called by the dispatcher only")
+		}
+	}
+}
+
+// ---------------------------------------------------------------------------
+// C16.no-lossy-go-conversion
+
+func init() {
+	register(&Rule{
+		ID: "C16.no-lossy-go-conversion", Prop: "C16", Also: []string{"C15", "C18", "C02", "C14"}, Floor: 10, Controls: 1,
+		Doc: "the packages that carry numbers across a boundary (cty, cty/json, cty/msgpack, cty/gocty) contain no Go conversion of a float64 to float32, or of an integer or float to an integer type of fewer bits, other than one whose result is converted back and compared with the original on the way: such a conversion rounds or wraps silently (an exactly representable float64 with a short mantissa but an exponent outside single precision becomes 0 or an infinity), and nothing downstream can tell",
+		Run: runNoLossyGoConversion,
+	})
+}
+
+func numericBits(b *types.Basic) (bits int, float bool, ok bool) {
+	switch b.Kind() {
+	case types.Int8, types.Uint8:
+		return 8, false, true
+	case types.Int16, types.Uint16:
+		return 16, false, true
+	case types.Int32, types.Uint32:
+		return 32, false, true
+	case types.Int64, types.Uint64, types.Int, types.Uint, types.Uintptr:
+		return 64, false, true
+	case types.Float32:
+		return 32, true, true
+	case types.Float64:
+		return 64, true, true
+	case types.UntypedInt, types.UntypedFloat, types.UntypedRune:
+		return 0, false, false
+	}
+	return 0, false, false
+}
+
+func runNoLossyGoConversion(rr *RuleRun) {
+	c := rr.Ctx
+	eachFuncBody(c, []string{"cty", "cty/json", "cty/msgpack", "cty/gocty"}, func(pkg string, fd *ast.FuncDecl, body *ast.BlockStmt) {
+		if body == nil {
+			return
+		}
+		info := c.Info(pkg)
+		inspectNoLit(body, func(n ast.Node) bool {
+			call, ok := n.(*ast.CallExpr)
+			if !ok || len(call.Args) != 1 {
+				return true
+			}
+			tv, ok := info.Types[call.Fun]
+			if !ok || !tv.IsType() {
+				return true
+			}
+			to, ok := tv.Type.Underlying().(*types.Basic)
+			if !ok {
+				return true
+			}
+			fromT := info.TypeOf(call.Args[0])
+			if fromT == nil {
+				return true
+			}
+			from, ok := fromT.Underlying().(*types.Basic)
+			if !ok {
+				return true
+			}
+			if atv, ok := info.Types[call.Args[0]]; ok && atv.Value != nil {
+				return true // a constant: checked by the compiler
+			}
+			tb, tf, ok1 := numericBits(to)
+			fb, ff, ok2 := numericBits(from)
+			if !ok1 || !ok2 {
+				return true
+			}
+			key := fmt.Sprintf("%s.%s/%s", pkg, declName(fd), trunc(exprStr(call), 40))
+			lossy := (ff && tf && tb < fb) || (!tf && tb < fb) || (ff && !tf && tb < 64)
+			if !lossy {
+				rr.OKTrivial(key, call.Pos(), "not a narrowing conversion")
+				return true
+			}
+			// converted back and compared? float64(float32(x)) == x
+			if p, ok := c.Parent(call).(*ast.CallExpr); ok && len(p.Args) == 1 {
+				if ptv, ok := info.Types[p.Fun]; ok && ptv.IsType() {
+					if be, ok := c.Parent(p).(*ast.BinaryExpr); ok && (be.Op == token.EQL || be.Op == token.NEQ) {
+						rr.OK(key, call.Pos(), "converted back and compared with the original")
+						return true
+					}
+				}
+			}
+			rr.Violation(key, call.Pos(), fmt.Sprintf("%s converts a %s to %s, which has fewer bits: values outside the narrower type's range or precision are rounded, flushed to zero, turned into an infinity or wrapped without any indication, and the result is used as if it were the number", exprStr(call), from.Name(), to.Name()))
+			return true
+		})
+	})
+}
